@@ -694,6 +694,22 @@ func (ex *Exec) scanEffects(n ast.Node, vars map[types.Object]bool, eff *effects
 					}
 					return true // deterministic callback: no effect (but counted where the contract opts in)
 				}
+				if id, ok := fun.(*ast.Ident); ok && ex.fc != nil && ex.fc.CallsEffects[id.Name] != nil {
+					for _, mo := range ex.fc.CallsEffects[id.Name] {
+						if eff == nil {
+							continue
+						}
+						switch {
+						case strings.HasPrefix(mo, "ghost."):
+							eff.ghost[strings.TrimPrefix(mo, "ghost.")] = true
+						case strings.HasPrefix(mo, "heap "):
+							eff.comps[ex.qualifyComp(strings.TrimSpace(strings.TrimPrefix(mo, "heap ")), ex.fc)] = true
+						default:
+							eff.heapAll = true
+						}
+					}
+					return true
+				}
 				if id, ok := fun.(*ast.Ident); ok && ex.fc != nil && len(ex.fc.Dispatch[id.Name]) > 0 {
 					// dispatch VAR over f1, ...: the effects are those of the candidates (#dispatch[VAR]
 					// proves that the variable is one of them)
